@@ -197,4 +197,6 @@ def _compute_rechunk(old_name, old_chunks, chunks, level, name):
 
     del old_blocks, new_index
 
-    return name, chunks, {**x2, **intermediates}
+    # ``name`` is re-used for the split keys above; this stage's blocks are
+    # the ones named ``merge_name``
+    return merge_name, chunks, {**x2, **intermediates}
